@@ -128,6 +128,17 @@ class Builder:
             self.pi(n["t"], n["v"])
 
 
+def comment_recovery(s):
+    """7.4: "--" inside or "-" at the end of a comment is an error; the processor may recover by inserting a
+    space after any "-" followed by another "-" or ending the comment. The library does (idempotent)."""
+    out = []
+    for i, ch in enumerate(s):
+        out.append(ch)
+        if ch == "-" and (i + 1 == len(s) or s[i + 1] == "-"):
+            out.append(" ")
+    return "".join(out)
+
+
 def freeze(nodes):
     out = []
     for n in nodes:
@@ -136,7 +147,7 @@ def freeze(nodes):
         elif n["k"] == "t":
             out.append(("t", n["v"]))
         elif n["k"] == "c":
-            out.append(("c", n["v"]))
+            out.append(("c", comment_recovery(n["v"])))
         else:
             # XML: the white space after the target is a separator, PI data never starts with it
             out.append(("p", n["t"], n["v"].lstrip(" \t\r\n")))
